@@ -919,6 +919,106 @@ def chained_links_follow_the_first_component(ctx, shape, outer, inner):
                     follower.getArea() * height, scale=a_out * fA1 * a_out * fA1 * height)
 
 
+# a link names a COMPONENT and one of its dimensions: whatever happens to that component afterwards (its own link
+# replaced by a number, cold or hot; re-linked to something else; temperature changes before and after) the dependent
+# reads the named component's current dimension, not that of whatever the named component happened to follow when the
+# link was made
+CHAIN_SHAPES = {"Circle": ("od", "id"), "Hexagon": ("op", "ip"), "Square": ("widthOuter", "widthInner")}
+CHAIN_HOWS = ("cold-number", "hot-number", "relink")
+
+
+@harness("C03", bounds="a chain of links whose MIDDLE component is re-dimensioned: solid shell (law V) <- solid liner "
+                       "(law L) whose outer boundary is a link to the shell's inner dimension <- void gap whose inner "
+                       "boundary is a link to the liner's outer boundary (and whose outer boundary is a link to the "
+                       "shell's inner dimension), built in that order; history: shell and liner change temperature, "
+                       "then the liner's linked outer boundary is replaced (by a cold number / by a hot number / by a "
+                       "link to a third component, a ring with its own dimension), then the liner and the shell "
+                       "change temperature again; cold dimensions in [0.01,100] with liner < shell (walls >= 0.1 % in "
+                       "every state looked at), temperatures in [100,1500] C, laws with non-zero expansion between "
+                       "the temperatures used", stubs=STUBS, qtimeout_ms=20000,
+         instances={"quick": [dict(shape="Circle", how=h) for h in CHAIN_HOWS],
+                    "thorough": [dict(shape=s, how=h) for s in CHAIN_SHAPES for h in CHAIN_HOWS]})
+def link_follows_the_named_component_after_it_is_redimensioned(ctx, shape, how):
+    cls = SHAPES[shape]
+    OUT, INN = CHAIN_SHAPES[shape]
+    TinA, TA0, TA1, TA2, TinB, TB0, TB1, TB2 = temps(
+        ctx, ("TinA", "TA0", "TA1", "TA2", "TinB", "TB0", "TB1", "TB2"), 100.0)
+    lawA = install_solid_law(ctx, TinA, (TA0, TA1, TA2))
+    lawB = install_second_law(ctx, (TinB, TB0, TB1, TB2))
+    assume_expansion_defined(ctx, lawA, TinA, (TA0, TA1, TA2))
+    assume_expansion_defined(ctx, lawB, TinB, (TB0, TB1, TB2))
+    l_inn = ctx.real("liner_inner", LO, HI)
+    b_inn = ctx.real("shell_inner", LO, HI)
+    b_out = ctx.real("shell_outer", LO, HI)
+    r_out = ctx.real("ring_outer", LO, HI)
+    x = ctx.real("new_liner_outer", LO, HI)
+    fA1, fA2 = factor(lawA, TA1, TinA), factor(lawA, TA2, TinA)
+    fB0, fB1, fB2 = factor(lawB, TB0, TinB), factor(lawB, TB1, TinB), factor(lawB, TB2, TinB)
+    # what the liner's outer boundary is after the replacement, before / after its second temperature change
+    if how == "cold-number":
+        new1, new2, newCold = x * fA1, x * fA2, x
+    elif how == "hot-number":
+        new1, new2, newCold = x, x / fA1 * fA2, x / fA1
+    else:
+        new1, new2, newCold = r_out * fB0, r_out * fB0, r_out       # the ring stays at TB0
+    ctx.assume(AND(l_inn <= WALL * b_inn, b_inn <= WALL * b_out, r_out <= WALL * b_inn))
+    for lo_, hi_ in ((new1, b_inn * fB1), (new2, b_inn * fB1), (new2, b_inn * fB2),
+                     (l_inn * fA1, new1), (l_inn * fA2, new2), (l_inn * fA1, b_inn * fB1)):
+        ctx.assume(lo_ <= WALL * hi_)
+    b = blocks.HexBlock("b", height=10.0)
+    shell = cls("clad", SymSolidB(), Tinput=TinB, Thot=TB0, mult=1.0, **{OUT: b_out, INN: b_inn})
+    ring = cls("ring", SymSolidB(), Tinput=TinB, Thot=TB0, mult=1.0, **{OUT: r_out, INN: 0.0})
+    sibs = {"clad": shell, "ring": ring}
+    liner = cls("liner", SymSolid(), Tinput=TinA, Thot=TA0, mult=1.0, components=sibs,
+                **{OUT: "clad." + INN, INN: l_inn})
+    sibs["liner"] = liner
+    gap = cls("gap", "Void", Tinput=400.0, Thot=400.0, mult=1.0, components=sibs,
+              **{OUT: "clad." + INN, INN: "liner." + OUT})
+    for c in (ring, liner, gap, shell):
+        b.add(c)
+    ctx.check("as built: the gap's inner boundary is a link, and so is the liner's outer boundary",
+              AND(gap.dimensionIsLinked(INN), liner.dimensionIsLinked(OUT)))
+    shell.setTemperature(TB1)
+    liner.setTemperature(TA1)
+    ctx.check_close("before the replacement the chain follows the shell", gap.getDimension(INN), b_inn * fB1,
+                    scale=b_inn * fB1)
+    # the middle of the chain gets a boundary of its own
+    if how == "cold-number":
+        liner.setDimension(OUT, x)
+    elif how == "hot-number":
+        liner.setDimension(OUT, x, cold=False)
+    else:
+        liner.setLink(OUT, ring, OUT)
+    ctx.check("the gap's inner boundary is still a link", gap.dimensionIsLinked(INN))
+    ctx.check_close("the named component has the boundary it was given", liner.getDimension(OUT), new1, scale=new1)
+
+    def follows(when, want, wantShell):
+        got = gap.getDimension(INN)
+        if ctx.canary and when == "after the second temperature change":
+            got = got * ITE(band(TA2), 1.01, 1)
+        ctx.check_close("%s: linked dimension = the NAMED component's current dimension" % when, got,
+                        liner.getDimension(OUT), scale=want)
+        ctx.check_close("%s: ... = what the history says it is" % when, got, want, scale=want)
+        ctx.check_close("%s: cold value of the link = the named component's cold value" % when,
+                        gap.getDimension(INN, cold=True), liner.getDimension(OUT, cold=True), scale=newCold)
+        ctx.check_close("%s: ... = the cold value the history says" % when, gap.getDimension(INN, cold=True), newCold,
+                        scale=newCold)
+        ctx.check_close("%s: the other boundary still follows the shell" % when, gap.getDimension(OUT), wantShell,
+                        scale=wantShell)
+        ref = cls("ref", "Void", Tinput=400.0, Thot=400.0, mult=1.0, **{OUT: wantShell, INN: want})
+        ctx.check_close("%s: area of the dependent = area between the named component and the shell" % when,
+                        gap.getArea(), ref.getArea(), scale=wantShell * wantShell)
+
+    follows("after the replacement", new1, b_inn * fB1)
+    liner.setTemperature(TA2)
+    follows("after the second temperature change", new2, b_inn * fB1)
+    shell.setTemperature(TB2)
+    ctx.check_close("a later change of the component the named one USED to follow does not move the link",
+                    gap.getDimension(INN), new2, scale=new2)
+    ctx.check_close("... while the boundary that IS linked to it moves", gap.getDimension(OUT), b_inn * fB2,
+                    scale=b_inn * fB2)
+
+
 # ---------------------------------------------------------------------------------------------------------
 # fluids and custom materials keep their dimensions
 
@@ -1093,3 +1193,121 @@ def library_material_expansion_conserves_mass(ctx, mat, shape, hollow, defined=T
         if ctx.canary:
             inside = AND(inside, NOT(AND(T2 > lo + 0.70 * (hi - lo), T2 < lo + 0.71 * (hi - lo))))
         ctx.check("(law outside the technique) temperature inside the stated range", inside)
+
+
+# ---------------------------------------------------------------------------------------------------------
+# every library material at concrete spot temperatures
+
+# Laws that are not polynomial in T (cube roots of a density ratio in SimpleSolid, exponentials, tables) cannot run on
+# symbolic temperatures; the mass-per-unit-height clause is about EVERY library material, whatever its base class
+# (Material, SimpleSolid, FuelMaterial, Fluid), so here the temperatures are concrete spots spread over the range the
+# class states (several paths, both directions), the real constructor sets composition and density, and only the
+# geometry (dimensions, multiplicity, height) stays symbolic.
+SPOT_PATHS = ((0.02, 0.30, 0.85, 0.55), (0.93, 0.66, 0.05, 0.40))
+
+
+def _spot_temps(cls, fracs):
+    lo, hi = _window_c(cls)
+    return [lo + x * (hi - lo) for x in fracs]
+
+
+def _library_fluids():
+    """library fluids with a positive density over the spot temperatures and a composition (read at import)"""
+    found, skipped = {}, {}
+    for cls in matpkg.iterAllMaterialClassesInNamespace(matpkg):
+        name = cls.__name__
+        if cls is matmod.Fluid or not issubclass(cls, matmod.Fluid):
+            continue
+        try:
+            m = cls()
+            rhos = [m.pseudoDensity(Tc=T) for fr in SPOT_PATHS for T in _spot_temps(cls, fr)]
+            bad = [r for r in rhos if not (r > 0 and r == r and r < 1e3)]
+        except Exception as e:  # noqa
+            skipped[name] = "cannot be evaluated at the spot temperatures: %r" % (e,)
+            continue
+        if bad:
+            skipped[name] = "density not positive at the spot temperatures"
+            continue
+        if not m.massFrac:
+            skipped[name] = "the class defines no composition: a component made of it has no atoms (see C19)"
+            continue
+        found[name] = cls
+    return dict(sorted(found.items())), skipped
+
+
+LIBRARY_FLUIDS, LIBRARY_FLUIDS_SKIPPED = _library_fluids()
+
+
+def _base_classes(cls):
+    return "+".join(b.__name__ for b in (matmod.SimpleSolid, matmod.FuelMaterial, matmod.Fluid) if issubclass(cls, b)) \
+        or "Material"
+
+
+SPOT_INSTANCES = [dict(mat=m, kind="solid") for m in LIBRARY] + [dict(mat=m, kind="fluid") for m in LIBRARY_FLUIDS]
+
+
+def _same_ratio(n, n0):
+    """every nuclide's number density changed by the same ratio (plain floats: the temperatures are concrete);
+    returns (holds, ratio of the first nuclide)"""
+    nucs = sorted(n0)
+    r = n[nucs[0]] / n0[nucs[0]]
+    return all(abs(n[k] / n0[k] - r) <= 1e-12 * r for k in nucs), r
+
+
+@harness("C03", bounds="EVERY library material of armi.materials, one instance each: solids of every base class "
+                       "(Material, SimpleSolid, FuelMaterial) that define an expansion law and a density, and every "
+                       "fluid with a positive density and a composition; temperatures CONCRETE: two paths Tinput -> "
+                       "T0 -> T1 -> T2 of spot temperatures spread over the range the class states for its expansion "
+                       "/ density (20..600 C when none), heating and cooling; hollow Circle with symbolic od, id in "
+                       "[0.01,100] (wall >= 0.1 %), mult in [1,500], height in [1,400]; composition and density as "
+                       "the real constructor sets them", stubs=STUBS, qtimeout_ms=20000,
+         instances={"quick": SPOT_INSTANCES})
+def every_library_material_conserves_mass_at_spot_temperatures(ctx, mat, kind):
+    cls = (LIBRARY if kind == "solid" else LIBRARY_FLUIDS)[mat]
+    dims, known = draw_dims(ctx, "Circle", True)
+    mult = ctx.real("mult", 1.0, 500.0)
+    height = ctx.real("height", 1.0, 400.0)
+    for name, why in sorted(LIBRARY_FLUIDS_SKIPPED.items()):
+        ctx.note("fluid not in this harness: %s (%s)" % (name, why))
+    ctx.note("%s: base classes %s" % (mat, _base_classes(cls)))
+    oracle = cls()
+    for p, fracs in enumerate(SPOT_PATHS):
+        Tin, T0, T1, T2 = _spot_temps(cls, fracs)
+        what = "path %d (%.1f -> %.1f -> %.1f -> %.1f C)" % (p, Tin, T0, T1, T2)
+        b, c = build(ctx, "Circle", cls(), Tin, T0, dims, mult, known, height=height)
+        cold = c.getArea(cold=True)
+        a0, n0, m0 = c.getArea(), dict(c.getNumberDensities()), c.getMass()
+        N0 = sum(n0.values())
+        ctx.check("%s: the constructor gives the component atoms" % what, AND(len(n0) > 0, N0 > 0, m0 > 0))
+        states = []
+        for T in (T1, T2):
+            c.setTemperature(T)
+            states.append((T, c.getArea(), dict(c.getNumberDensities()), c.getMass()))
+        bump = ITE(AND(mult > 250, mult < 255), 1.01, 1) if (ctx.canary and p == 1) else 1
+        for k, (T, a, n, m) in enumerate(states, 1):
+            same, ratio = _same_ratio(n, n0)
+            ctx.check("%s: every nuclide's number density changes by the same ratio at T%d" % (what, k), same)
+            if kind == "solid":
+                L = lambda T: oracle.linearExpansionPercent(Tc=T)
+                f, f0 = factor(L, T, Tin), factor(L, T0, Tin)
+                want = cold * f * f
+                ctx.check_close("%s: area(T%d) = cold area x f^2, f from the material's linearExpansionPercent" % (
+                    what, k), a, want * bump, scale=want)
+                ctx.check_close("%s: area x N at T%d is conserved (mass per unit height)" % (what, k),
+                                a * sum(n.values()), a0 * N0, scale=a0 * N0)
+                ctx.check_close("%s: N at T%d shrinks by the square of the expansion factor" % (what, k),
+                                ratio * f * f, f0 * f0, scale=f0 * f0)
+                ctx.check_close("%s: mass at T%d is conserved" % (what, k), m, m0, scale=m0)
+            else:
+                rho = oracle.pseudoDensity
+                ctx.check_close("%s: area at T%d unchanged" % (what, k), a, a0 * bump, scale=a0)
+                ctx.check_close("%s: N at T%d follows the density of that temperature only" % (what, k),
+                                ratio * rho(Tc=T0), rho(Tc=T), scale=rho(Tc=T))
+        if kind == "solid":
+            f2 = factor(L, T2, Tin)
+        else:
+            f2 = 1.0
+            ctx.check_close("%s: a fluid has no thermal expansion factor" % what, c.getThermalExpansionFactor(), 1.0,
+                            scale=1.0)
+        for k, v in dims.items():
+            ctx.check_close("%s: hot %s = cold x f at T2" % (what, k), c.getDimension(k), v * f2, scale=v * f2)
